@@ -47,6 +47,14 @@ struct Case { std::string harness; int nthreads; std::vector<std::vector<int>> c
 
 // H3: thread 0 changes the limit twice, the others perform one operation whose outcome depends on it
 static const uint32_t L0 = 20, L1 = 10, L2 = 30;
+// H4: the same shape as H3 but the limit starts UNLIMITED, drops to a small value and goes back: code that takes its rollback
+// snapshot only "when a limit is configured" and then re-reads the limit sees two different worlds inside one call
+static const uint32_t UNL = std::numeric_limits<uint32_t>::max();
+static bool is_limit_harness(const std::string& h) { return h == "H3" || h == "H4"; }
+static const uint32_t* limits_of(const std::string& h) {
+  static const uint32_t a[3] = {L0, L1, L2}, b[3] = {UNL, L1, UNL};
+  return h == "H4" ? b : a;
+}
 static const int N_LIMIT_OPS = 8;
 static std::string limit_op(int op) {
   static const std::string in15 = "http://a/b/cdef";          // 15 bytes: fits 20 and 30, not 10
@@ -74,14 +82,21 @@ static std::string limit_setter(int op) {
     case 1: { bool r = g_obj_u.set_host("abcdefghij"); return "set_host:" + std::to_string(r) + ":" + g_obj_u.get_href(); }                           // result 18
     case 2: { g_obj_a.set_search("0123456789"); return "set_search:" + std::string(g_obj_a.get_href()); }
     case 3: { bool r = g_obj_u.set_href("http://b/cdefghijklmnopqrs"); return "set_href:" + std::to_string(r) + ":" + g_obj_u.get_href(); }
+    case 4: { g_obj_a.set_hash("0123456789abcdef"); return "set_hash:" + std::string(g_obj_a.get_href()); }
+    case 5: { g_obj_u.set_hash("0123456789abcdef"); return "set_hash-url:" + g_obj_u.get_href(); }
+    case 6: { g_obj_u.set_search("0123456789abcdef"); return "set_search-url:" + g_obj_u.get_href(); }
+    case 7: { bool r = g_obj_a.set_username("0123456789abcdef"); return "set_username:" + std::to_string(r) + ":" + std::string(g_obj_a.get_href()); }
+    case 8: { bool r = g_obj_a.set_protocol("https"); return "set_protocol:" + std::to_string(r) + ":" + std::string(g_obj_a.get_href()); }
+    case 9: { bool r = g_obj_u.set_port("8080"); return "set_port-url:" + std::to_string(r) + ":" + g_obj_u.get_href(); }
   }
   return "?";
 }
-static const int N_LIMIT_SETTERS = 4;
+static const int N_LIMIT_SETTERS = 4;       // H3 uses the first four
+static const int N_LIMIT_SETTERS_ALL = 10;  // H4 uses all
 
 static std::string body(const Case& c, int tid) {
-  if (c.harness == "H3") {
-    if (tid == 0) { ada::set_max_input_length(L1); ada::set_max_input_length(L2); return "setter-done"; }
+  if (is_limit_harness(c.harness)) {
+    if (tid == 0) { const uint32_t* L = limits_of(c.harness); ada::set_max_input_length(L[1]); ada::set_max_input_length(L[2]); return "setter-done"; }
     int op = c.op[tid];
     return op < 100 ? limit_op(op) : limit_setter(op - 100);
   }
@@ -90,8 +105,8 @@ static std::string body(const Case& c, int tid) {
   return r;
 }
 static void prepare(const Case& c) {
-  if (c.harness == "H3") {
-    ada::set_max_input_length(L0);
+  if (is_limit_harness(c.harness)) {
+    ada::set_max_input_length(limits_of(c.harness)[0]);
     auto a = ada::parse<ada::url_aggregator>("http://a/p"); auto u = ada::parse<ada::url>("http://a/p");
     if (a) g_obj_a = *a; if (u) g_obj_u = *u;
   }
@@ -107,6 +122,9 @@ static Case make_case(const std::string& h, int idx) {
   } else if (h == "H2") {
     static const int T[][3] = {{0, 0, 0}, {0, 1, 3}, {2, 4, 5}, {1, 1, 2}, {5, 3, 0}};
     c.nthreads = 3; c.calls = {{T[idx][0], 6}, {T[idx][1]}, {T[idx][2], 7}};
+  } else if (h == "H4") {
+    // one worker running one setter while the limit goes unlimited -> small -> unlimited
+    c.nthreads = 2; c.op[1] = 100 + idx % N_LIMIT_SETTERS_ALL;
   } else if (h == "H3") {
     // idx < 8+4: one worker; beyond: two workers
     int nops = N_LIMIT_OPS + N_LIMIT_SETTERS;
@@ -120,6 +138,7 @@ static int n_cases(const std::string& h, bool thorough) {
   if (h == "H1") return thorough ? N_FIRST * N_FIRST : 6;
   if (h == "H2") return thorough ? 5 : 1;
   if (h == "H3") return N_LIMIT_OPS + N_LIMIT_SETTERS + (thorough ? 16 : 4);
+  if (h == "H4") return N_LIMIT_SETTERS_ALL;
   return 0;
 }
 
@@ -150,10 +169,11 @@ static int ref_main(const Args& A) {
   Case c = make_case(A.get("harness"), int(A.geti("case", 0)));
   int tid = int(A.geti("tid", 0));
   prepare(c);
-  if (c.harness == "H3") {
+  if (is_limit_harness(c.harness)) {
     // the sequential oracle of a worker: its result under each of the three limits (fresh object each)
     std::string out;
-    for (uint32_t L : {L0, L1, L2}) { prepare(c); ada::set_max_input_length(L); out += hex(body(c, tid)) + " "; }
+    const uint32_t* LL = limits_of(c.harness);
+    for (int li = 0; li < 3; li++) { prepare(c); ada::set_max_input_length(LL[li]); out += hex(body(c, tid)) + " "; }
     printf("R %d %s\n", tid, out.c_str());
     return 0;
   }
@@ -357,8 +377,8 @@ int main(int argc, char** argv) {
     if (r1.exit_code != 0 || r1.timed_out) bad = true;
     for (int t = 0; t < c.nthreads && t < int(r1.results.size()); t++) {
       printf(" thread %d: got \"%s\" sequential \"%s\"\n", t, show(unhex(r1.results[t])).c_str(), show(unhex(exp[t])).c_str());
-      if (h != "H3" && r1.results[t] != exp[t]) bad = true;
-      if (h == "H3" && t > 0 && (" " + exp[t]).find(" " + r1.results[t] + " ") == std::string::npos) bad = true;
+      if (!is_limit_harness(h) && r1.results[t] != exp[t]) bad = true;
+      if (is_limit_harness(h) && t > 0 && (" " + exp[t]).find(" " + r1.results[t] + " ") == std::string::npos) bad = true;
     }
     if (r1.results != r2.results || r1.exit_code != r2.exit_code) printf(" NONDETERMINISTIC replay (harness problem)\n");
     if (!r1.raw_err.empty()) printf(" stderr: %s\n", r1.raw_err.substr(0, 1500).c_str());
@@ -368,7 +388,7 @@ int main(int argc, char** argv) {
   uint64_t total_exec = 0, total_states = 0, total_points = 0;
   std::set<std::string> distinct_outcomes;
   bool capped = false;
-  std::vector<std::string> harnesses = {"H1", "H2", "H3"};
+  std::vector<std::string> harnesses = {"H1", "H2", "H3", "H4"};
   std::map<std::string, std::string> extra;
   for (auto& h : harnesses) {
     if (!only_h.empty() && h != only_h) continue;
@@ -420,7 +440,7 @@ int main(int argc, char** argv) {
           else {
             for (int t = 0; t < c.nthreads; t++) {
               std::string got = t < int(rr.results.size()) ? rr.results[t] : "<none>";
-              if (h == "H3") {
+              if (is_limit_harness(h)) {
                 if (t > 0 && (" " + expected[t]).find(" " + got + " ") == std::string::npos) what = "result-not-under-any-limit:thread" + std::to_string(t);
               } else if (got != expected[t]) what = "result-differs-from-sequential:thread" + std::to_string(t);
             }
